@@ -236,6 +236,9 @@ func c11Observe(g *c11Ghost, corr *Correctable, w0 <-chan struct{}, w0l int, w1 
 	}
 	// a watcher registered after completion at or below the final level is released
 	vAssert(c11Closed(corr.Watch(level)), "C11.watch-after-done")
+	// ... and so is one above it: the call is complete, the level can never be reached, and
+	// "done: all watchers are released" - a goroutine waiting on it would wait for ever
+	vAssert(c11Closed(corr.Watch(level+1)), "C11.watcher-registered-after-done-never-released")
 }
 
 func VerifC11Twin(nmax, maxEvents, streamArg int) {
